@@ -63,6 +63,20 @@ REGISTRY["C01"] = dict(
     ),
     assumptions=TRUSTED + ["evaluation errors are never swallowed (checked: only Environment::{get_mixin,get_var} match on Err)"],
 )
+REGISTRY["C07"] = dict(
+    module="c07",
+    level="other",
+    technique="static analysis: format-template extraction (precision/width of fmt::Arguments constants), predicate-sensitive extraction of the decision tables of the numeric helper functions, operand wiring by access-path tracing",
+    claim=(
+        "Definitional clauses only, no arithmetic is evaluated: (a) both functions that print a number (Serializer::write_float, Number::to_string) format the magnitude with `{:.10}`, "
+        "trim trailing zeros then a trailing dot, normalise empty/`-`/`-0` to `0` and spell infinities out; (b) Number % Number is modulo(), whose decision table is "
+        "{divisor > 0: rem_euclid; = 0: NaN; < 0: 0 or rem_euclid + divisor} (sign of the divisor); (c) PRECISION = 10, epsilon = 10^-11, inverse_epsilon = 10^11, and "
+        "fuzzy_less_than / fuzzy_less_than_or_equals / fuzzy_as_int have their reference definitions over `<` and fuzzy_equals (whose own shape is C09-f). "
+        "NOT decided: that arithmetic equals IEEE double arithmetic, correct rounding of the printed digits, sass:math function values, re-reading the printed text."
+    ),
+    explanation="Clauses C07-a..c: definitions of the number helpers compared with their reference definitions on MIR facts of the current tree. NOT decided: any numeric result.",
+    assumptions=TRUSTED + ["Rust's `{:.N}` formatting of f64 prints plain decimal notation with N fractional digits, correctly rounded"],
+)
 REGISTRY["C19"] = dict(
     module="c19",
     level="other",
@@ -252,7 +266,6 @@ REGISTRY["C10"] = dict(
 
 UNBUILT = "check not built yet in this session (design in DESIGN.md §3); not claimed until its rules run clean on the pinned tree"
 NOT_APPLICABLE = {
-    "C07": "numeric results at rounding boundaries and printed digits quantify over f64 values; no structural clause that is a necessary condition and not already pinned by tests (DESIGN §4)",
     "C11": "soundness w.r.t. element matching quantifies over all DOMs; the code is index arithmetic with no table/pairing structure to check statically (DESIGN §4)",
 }
 for _p in ["C%02d" % i for i in range(1, 21)]:
